@@ -366,6 +366,14 @@ DSerde(D, m, res) ==
         /\ {<<x[2], x[5]>> : x \in DRange(res.ret.de)} = {<<e.c, e.v>> : e \in D}
         /\ Len(res.ret.de) = Cardinality(D)
 
+\* decoding a hand-made stream with repeated keys / too many keys: the fold of ideal inserts, or refused
+DDeItems(D, cap, items, res) ==
+  LET f == DFold({}, cap, items, 1, {}, {}) IN
+  /\ Same(res, D)
+  /\ res.ret.ok = ~f.panic
+  /\ ~f.panic => /\ {<<x[2], x[3], x[5]>> : x \in DRange(res.ret.de)} = {<<e.c, e.r, e.v>> : e \in f.post}
+                 /\ Len(res.ret.de) = Cardinality(f.post)
+
 \* ---------------------------------------------- set algebra (recorded executions) --
 \* the container against a second set holding the classes op.b: the lazy adaptors yield exactly the
 \* mathematical result without repeats, the predicates tell the truth, the container is unchanged
@@ -440,5 +448,6 @@ DictAllows(D, cap, op, res) ==
     [] op.name = "clone"            -> DClone(D, cap, op.then, op.on, op.survivor, res)
     [] op.name \in {"clone_from", "s_clone_from"} -> DCloneFrom(D, op, res)
     [] op.name = "serde"            -> DSerde(D, op.m, res)
+    [] op.name = "de_items"         -> DDeItems(D, cap, op.stream, res)
 
 =============================================================================
